@@ -1003,7 +1003,11 @@ func (p *Parser) parseTernary(conditionNode ast.Node) ast.Node {
 
 	firstToken := p.curToken // the "?"
 	p.nextToken()            // move past the '?'
-	precedence := p.currentPrecedence()
+	// Both branches extend as far as possible. The precedence must not be
+	// taken from the first token of the true branch: that made the parse of
+	// the false branch depend on whether the true branch starts with a
+	// prefix operator or parenthesis, e.g. `c ? -1 : 7 - 1`.
+	precedence := LOWEST
 	ifTrue := p.parseExpression(precedence)
 	if ifTrue == nil {
 		p.setTokenError(p.curToken, "invalid syntax in ternary if true expression")
